@@ -311,26 +311,27 @@ func strictCheck(data []byte) (skipped bool, err error) {
 		}
 	}
 	var stack []openEl
+	// prefix -> stack of bindings (innermost last), so that a lookup does not walk the element stack
+	// (documents nested 100 000 deep are part of what the checks generate)
+	bound := map[string][]string{}
 	lookup := func(p string) (string, bool) {
 		if p == "xml" {
 			return nsXML, true
 		}
-		for k := len(stack) - 1; k >= 0; k-- {
-			if u, ok := stack[k].ns.prefix[p]; ok {
-				return u, u != ""
-			}
+		if b := bound[p]; len(b) > 0 {
+			return b[len(b)-1], b[len(b)-1] != ""
 		}
 		return "", false
 	}
-	defaultNS := func() string {
-		for k := len(stack) - 1; k >= 0; k-- {
-			if stack[k].ns.def != nil {
-				return *stack[k].ns.def
+	pop := func() {
+		top := stack[len(stack)-1]
+		for p := range top.ns.prefix {
+			if b := bound[p]; len(b) > 0 {
+				bound[p] = b[:len(b)-1]
 			}
 		}
-		return ""
+		stack = stack[:len(stack)-1]
 	}
-	_ = defaultNS
 	rootSeen, rootClosed := false, false
 	for !s.eof() {
 		inContent := len(stack) > 0
@@ -381,7 +382,7 @@ func strictCheck(data []byte) (skipped bool, err error) {
 			if top.name != n {
 				return false, s.errf("end tag </%s> does not match <%s>", n, top.name)
 			}
-			stack = stack[:len(stack)-1]
+			pop()
 			if len(stack) == 0 {
 				rootClosed = true
 			}
@@ -494,6 +495,9 @@ func strictCheck(data []byte) (skipped bool, err error) {
 				}
 			}
 			stack = append(stack, openEl{name: n, ns: sc})
+			for p, u := range sc.prefix {
+				bound[p] = append(bound[p], u)
+			}
 			split := func(q string) (string, string, error) {
 				k := strings.IndexByte(q, ':')
 				if k < 0 {
@@ -543,7 +547,7 @@ func strictCheck(data []byte) (skipped bool, err error) {
 				exp[key] = true
 			}
 			if empty {
-				stack = stack[:len(stack)-1]
+				pop()
 				if len(stack) == 0 {
 					rootClosed = true
 				}
